@@ -143,6 +143,38 @@ def design(ctx):
             ctx.coverage.setdefault("deviation_runs", []).append({"dev": dev[0], "expected": expect, "reproduced": expect in r.violated})
 
 
+def inductive(ctx):
+    """Apalache: the safety part of Lifecycle.tla as an inductive invariant (specs/apalache/MC_Lifecycle.tla) for constants
+    beyond TLC's enumeration (6 workers over a master's life, 4 configured, 3 threads): Init => IndInv, IndInv /\\ Next =>
+    IndInv'; and the deviation ForkBeforeReady must break consecution (non-vacuity)."""
+    import shutil
+    import subprocess
+    d = os.path.join(tlc.OUT, "apalache", "Lifecycle")
+    shutil.rmtree(d, ignore_errors=True)
+    os.makedirs(d)
+    specs = os.path.join(os.path.dirname(os.path.dirname(os.path.dirname(os.path.abspath(__file__)))), "specs")
+    for f in ("Lifecycle.tla", os.path.join("apalache", "MC_Lifecycle.tla"), os.path.join("apalache", "MC_LifecycleDev.tla")):
+        shutil.copy(os.path.join(specs, f), d)
+    res = {}
+    for label, mod, args in (("initiation", "MC_Lifecycle.tla", ["--init=Init", "--inv=IndInv", "--length=0"]),
+                             ("consecution", "MC_Lifecycle.tla", ["--init=IndInit", "--inv=IndInv", "--length=1"]),
+                             ("deviation", "MC_LifecycleDev.tla", ["--init=IndInit", "--inv=IndInv", "--length=1"])):
+        try:
+            r = subprocess.run(["apalache-mc", "check"] + args + ["--out-dir=" + os.path.join(d, "out"), mod], cwd=d,
+                               stdout=subprocess.PIPE, stderr=subprocess.STDOUT, text=True, timeout=900)
+        except (OSError, subprocess.TimeoutExpired) as e:
+            res[label] = "not run: %s" % type(e).__name__
+            continue
+        res[label] = "NoError" if "The outcome is: NoError" in r.stdout else "Error" if "Checker has found an error" in r.stdout else "failed"
+    shutil.rmtree(d, ignore_errors=True)
+    ctx.coverage["apalache_inductive_invariant"] = dict(res, constants="MaxAge=6 MaxN=4 Threads=3",
+                                                        invariant="Types, NoWorkerBeforeReady, RequestsOnlyAfterInit, ages in order")
+    if res.get("initiation") == "Error" or res.get("consecution") == "Error":
+        raise tlc.TLCError("Lifecycle: the inductive invariant does not hold: %s" % res)
+    if res.get("deviation") == "NoError":
+        raise tlc.TLCError("Lifecycle: the deviation ForkBeforeReady does not break the inductive invariant")
+
+
 def follow(ctx):
     from props.reload_real import _parallel
     plan = ["sync", "gthread"] if ctx.quick else ["sync", "gthread", "gevent", "eventlet"]
